@@ -42,6 +42,7 @@ import SophiaModel.Basic.Term
 import SophiaModel.Regex.Comb
 import SophiaModel.Gen.Regexes
 import SophiaModel.Gen.NtEscapes
+import SophiaModel.Gen.NtWriter
 
 namespace SophiaModel.NT
 open SophiaModel
@@ -160,6 +161,60 @@ def writeQuad (q : Quad) : Str :=
      | some t => ' ' :: writeTerm t ++ ['.', '\n'])
 
 def writeDoc (d : List Quad) : Str := d.flatMap writeQuad
+
+/-! ### the writer as the source spells it: interpreter of the generated op tables
+
+`tools/extractors/c03.py` (`ntwriter`) parses `write_term`, `write_triple`, the per-statement closures
+of `serialize_triples` / `serialize_quads` into sequences of writes (`Gen.NtOp`, file
+`Gen/NtWriter.lean`), the literal arm's decision tree and the `NsTerm` the datatype is compared with.
+`writeTermT … writeDocT` run those tables; the driver prints *their* output.  That they coincide with
+the hand-written `writeTerm … writeDoc` above (about which the round-trip theorems are stated) is
+proved in `SophiaProofs.C03.writeTermT_eq`, `writeQuadT_eq`, `writeDocT_eq`. -/
+
+/-- a sequence of writes; `f` says what the non-constant ones write in the current context (a
+component the context does not have writes nothing — in the source it would not compile) -/
+def interp (f : Gen.NtOp → Str) (ops : List Gen.NtOp) : Str :=
+  ops.flatMap fun
+    | .raw b => b
+    | op => f op
+
+/-- `NsTerm::eq` against an IRI: `iri.starts_with(ns) && &iri[ns.len()..] == suffix`
+(api/src/ns/_term.rs; that the source still has this shape is `Gen.nsTermEqShape`) -/
+def nsTermEq (ns sfx iri : Str) : Bool := ns.isPrefixOf iri && iri.drop ns.length == sfx
+
+def writeTermT : Term → Str
+  | .iri s => interp (fun | .iri => s | _ => []) Gen.ntArmIri
+  | .bnode l => interp (fun | .bnode => l | _ => []) Gen.ntArmBnode
+  | .var v => interp (fun | .var => v | _ => []) Gen.ntArmVar
+  | .lit lex dt =>
+    let f : Gen.NtOp → Str := fun | .lex => quotedString lex | .dt => dt | _ => []
+    interp f Gen.ntLitPre ++
+      (if !nsTermEq Gen.ntElideNs Gen.ntElideSuffix dt then interp f Gen.ntLitTyped else interp f Gen.ntLitPlain)
+  | .lang lex tag =>
+    let f : Gen.NtOp → Str := fun | .lex => quotedString lex | .tag => tag | _ => []
+    interp f Gen.ntLitPre ++ interp f Gen.ntLitLang
+  | .triple s p o =>
+    let ws := writeTermT s
+    let wp := writeTermT p
+    let wo := writeTermT o
+    let tr := interp (fun | .sub .s => ws | .sub .p => wp | .sub .o => wo | _ => []) Gen.ntTriple
+    interp (fun | .triple => tr | _ => []) Gen.ntArmTriple
+
+def writeTripleT (s p o : Term) : Str :=
+  interp (fun | .sub .s => writeTermT s | .sub .p => writeTermT p | .sub .o => writeTermT o | _ => []) Gen.ntTriple
+
+/-- the per-statement closure: `nq = true` of `NqSerializer::serialize_quads`, `false` of
+`NtSerializer::serialize_triples` (which never sees a graph name) -/
+def writeQuadT (nq : Bool) (q : Quad) : Str :=
+  let f : Gen.NtOp → Str := fun
+    | .triple => writeTripleT q.s q.p q.o
+    | .sub .g => (match q.g with | some g => writeTermT g | none => [])
+    | _ => []
+  if nq then
+    interp f Gen.nqPre ++ (match q.g with | none => interp f Gen.nqNone | some _ => interp f Gen.nqSome)
+  else interp f Gen.ntStatement
+
+def writeDocT (nq : Bool) (d : List Quad) : Str := d.flatMap (writeQuadT nq)
 
 /-- some literal in the term makes `quoted_string` panic -/
 def termPanics : Term → Bool
